@@ -50,8 +50,28 @@ def run(fn, script, period, phase, variant="rtl", perm_seed=None, reset_midway=F
     m4 = Module()
     m4.d.sync += q.eq(Const(f4, 4).bit_select(Cat(r, a), 1))
     m.submodules.m4 = m4
+    # derived state (AmSim!Val): one register whose two bits are driven by two different fragments, and a memory row
+    # with two write ports in two clock domains whose edges coincide; both mirror (r, q)
+    from amaranth.lib.memory import Memory
+    m.domains.sync2 = ClockDomain("sync2")
+    rq = Signal(2, name="rq", init=r0 + 2 * q0)
+    nr = Const(f3, 4).bit_select(Cat(y, q), 1)
+    nq = Const(f4, 4).bit_select(Cat(r, a), 1)
+    m5 = Module()
+    m5.d.sync += rq[0].eq(nr)
+    m.submodules.m5 = m5
+    m6 = Module()
+    m6.d.sync += rq[1].eq(nq)
+    m.submodules.m6 = m6
+    mem = Memory(shape=2, depth=2, init=[r0 + 2 * q0])
+    m.submodules.mem = mem
+    w1 = mem.write_port(domain="sync", granularity=1)
+    w2 = mem.write_port(domain="sync2", granularity=1)
+    m.d.comb += [w1.addr.eq(0), w1.data.eq(Cat(nr, 0)), w1.en.eq(1),
+                 w2.addr.eq(0), w2.data.eq(Cat(0, nq)), w2.en.eq(2)]
     sim = Simulator(m)
     sim.add_clock(Period(fs=period), phase=Period(fs=phase))
+    sim.add_clock(Period(fs=period), phase=Period(fs=phase), domain="sync2")
     if variant == "proc":
         async def p2(ctx):
             async for xv, bv in ctx.changed(x, b):
@@ -65,25 +85,29 @@ def run(fn, script, period, phase, variant="rtl", perm_seed=None, reset_midway=F
                     ctx.set(r, tt(f3, yv, qv))
         sim.add_process(p2)
         sim.add_process(p3)
-    sigs = {"a": a, "b": b, "x": x, "y": y, "r": r, "q": q}
+    sigs = {"a": a, "b": b, "x": x, "y": y, "r": r, "q": q, "rq": rq, "mem": mem.data[0]}
     obs = []
 
-    async def tb(ctx):
-        for op in script:
-            k = op[0]
-            if k == "set":
-                ctx.set(sigs[op[1]], op[2])
-            elif k == "get":
-                obs.append(("get", op[1], ctx.get(sigs[op[1]])))
-            elif k == "time":
-                obs.append(("time", ctx.elapsed_time().femtoseconds))
-            elif k == "tick":
-                _, _, yv, rv, qv = await ctx.tick().sample(y, r, q)
-                obs.append(("tick", ctx.elapsed_time().femtoseconds, yv, rv, qv))
-            elif k == "delay":
-                await ctx.delay(Period(fs=op[1]))
+    def make_tb(idx, ops):
+        async def tb(ctx):
+            for op in ops:
+                k = op[0]
+                if k == "set":
+                    ctx.set(sigs[op[1]], op[2])
+                elif k == "get":
+                    obs.append((idx, "get", op[1], ctx.get(sigs[op[1]])))
+                elif k == "time":
+                    obs.append((idx, "time", ctx.elapsed_time().femtoseconds))
+                elif k == "tick":
+                    _, _, yv, rv, qv = await ctx.tick().sample(y, r, q)
+                    obs.append((idx, "tick", ctx.elapsed_time().femtoseconds, yv, rv, qv))
+                elif k == "delay":
+                    await ctx.delay(Period(fs=op[1]))
+        return tb
 
-    sim.add_testbench(tb)
+    # `script` is a tuple of scripts: one testbench each, added in this order
+    for idx, ops in enumerate(script):
+        sim.add_testbench(make_tb(idx + 1, ops))
     if perm_seed is not None:
         eng = sim._engine
         rng = random.Random(perm_seed)
